@@ -64,7 +64,8 @@ def execute(ctx, binary, mode, scheds, tag, extra=None, timeout=1800):
 
 def confirm(ctx, rep, scheds, prefix, rerun, per_key=2, limit=6):
     """Monitor reports -> violations confirmed by a second, independent execution from scratch.
-    rerun(schedule, tag) -> TraceReport of the re-execution."""
+    rerun(schedule, tag) -> TraceReport of the re-execution (C25 re-executes the schedule several times in one go:
+    which ready case a Go select takes is random, see run_c25)."""
     viol, seen = [], {}
     for (tid, line, clauses, tags) in rep.monitors:
         mine = sorted(c for c in clauses if c.startswith(prefix))
@@ -380,8 +381,10 @@ def run_c25(ctx, replay):
         rep = vlib.validate(ctx, module, cfg, tp, timeout=3000)
 
         def rerun(sched, tag, module=module, cfg=cfg, mode=mode, extra=extra):
-            return vlib.validate(ctx, module, cfg, execute(ctx, binary, mode, [sched], tag, extra=extra))
-        vs = confirm(ctx, rep, scheds, "C25_", rerun)
+            # the closed-channel records depend on Go's random choice among ready select cases (and, un-gated, on which
+            # of two timers fires first): the schedule is re-executed from scratch 6 times, one more failure confirms
+            return vlib.validate(ctx, module, cfg, execute(ctx, binary, mode, [sched] * 6, tag, extra=extra))
+        vs = confirm(ctx, rep, scheds, "C25_", rerun, per_key=3)
         for v in vs:
             v["part"] = part
         viol += vs
